@@ -123,6 +123,7 @@ def main():
                     report['first_replay_check'] = cid
     finally:
         sh('git -C %s checkout -- .' % REPO)
+        sh('git -C %s clean -fdq' % REPO)       # files a patch added (ignored build outputs stay)
         rc, out = sh('git -C %s status --porcelain' % REPO)
         assert out.strip() == '', 'could not restore /repo: ' + out
         # the evidence / replay files written while the change was applied are not evidence for the unchanged tree
